@@ -899,7 +899,13 @@ def build_unit(unit_path, vacuity=False, degrade=None):
     scan = {}
     for kw in ('assume(', 'admit(', 'external_body', 'assume_specification', 'axiom fn', 'external_type_specification', 'external_fn_specification', 'uninterp spec fn'):
         scan[kw] = len(re.findall(re.escape(kw), blank_noncode(text)))
-    info = {'functions': fns, 'items': items, 'rules_fired': rules.fired, 'rule_notes': rules.dropped, 'assumption_scan': scan, 'degraded': degraded}
+    # names of everything assumed in the generated file (external bodies = assumed contracts, axioms, assume_specification of std functions)
+    code_ = blank_noncode(text)
+    assumed = sorted(set(re.findall(r'#\[verifier::external_body\]\s*(?:#\[[^\]]*\]\s*)*(?:pub(?:\([a-z]+\))?\s+)?(?:fn|struct)\s+(\w+)', code_)))
+    axioms = sorted(set(re.findall(r'\baxiom\s+fn\s+(\w+)', code_)))
+    std_specs = sorted(set(x.strip() for x in re.findall(r'assume_specification\s*(?:<[^\[]*>)?\s*\[\s*(.+?)\s*\]\s*\(', code_)))
+    info = {'functions': fns, 'items': items, 'rules_fired': rules.fired, 'rule_notes': rules.dropped, 'assumption_scan': scan, 'degraded': degraded,
+            'assumed_names': {'external_body': assumed, 'axioms': axioms, 'assume_specification': std_specs}}
     return text, info
 
 
